@@ -26,7 +26,8 @@ CHECKS = {
             ("R-BUFGROW", "r_alloc", "run_bufgrow_io", ("quick", "thorough"))],
     "C16": [("R-TABLES.c16", "r_tables", "run_c16", ("quick", "thorough"))],
     "C10": [("R-TABLES.logic", "r_tables", "run_logic", ("quick", "thorough"))],
-    "C18": [("R-PRINTF", "r_printf", "run", ("quick", "thorough"))],
+    "C18": [("R-PRINTF", "r_printf", "run", ("quick", "thorough")),
+            ("R-BUFGROW", "r_alloc", "run_bufgrow_io", ("quick", "thorough"))],
     "C19": [("R-RANDCOV", "r_rand", "run", ("quick", "thorough"))],
     "C20": [("R-CXXALIAS", "r_cxx", "run", ("quick", "thorough")),
             ("R-CXXMAP", "r_cxxmap", "run", ("quick", "thorough"))],
